@@ -8,6 +8,7 @@ pub mod c15;
 pub mod c16;
 pub mod c17;
 pub mod c17b;
+pub mod c17c;
 
 use crate::engine::Engine;
 
